@@ -305,6 +305,11 @@ func library() api.FunctionSymbols {
 		"apply1": func(c *api.Context, f func(*api.Context, interface{}) (interface{}, error), x interface{}) (interface{}, error) {
 			return f(c, x)
 		},
+		// the same with the function last: `applyto {x -> ..}` is a partial application of a NATIVE function
+		// that holds a closure (trailing arguments are bound first)
+		"applyto": func(c *api.Context, x interface{}, f func(*api.Context, interface{}) (interface{}, error)) (interface{}, error) {
+			return f(c, x)
+		},
 	}
 	// the registered implementations, under the names Lang.tla uses
 	for _, name := range []string{"add", "pair", "first", "second", "call", "keyed", "tagged", "typed", "and", "or"} {
